@@ -66,17 +66,17 @@ Definition agrees (e : N * N) : Prop :=
   chunk < fst e /\ root_refs chunk branching (fst e) = Some (snd e) /\
   2 <= snd e <= branching /\ recover chunk refsize (fst e) = Some (refsize * snd e).
 
-Lemma writer_reader_agree size :
+Lemma writer_reader_agree (proc : N -> N) size :
   W64 <= chunk * branching ^ 7 ->
   0 < size -> size + chunk <= W64 ->
-  exists em, trie_run (N.to_nat branching) (leaf_spans chunk size) = Ok (size, em) /\ Forall agrees em.
+  exists em, trie_run p_span proc (N.to_nat branching) (leaf_spans chunk size) = Ok (size, em) /\ Forall agrees em.
 Proof.
   intros HK Hpos Hnw.
   assert (Hc2 : 2 <= chunk) by nia.
   assert (Hbn : (2 <= N.to_nat branching)%nat) by lia.
   assert (Hcap : size < F chunk (N.to_nat branching) 7).
   { unfold F. rewrite N2Nat.id. change (N.of_nat 7) with 7. lia. }
-  destruct (trie_agree chunk (N.to_nat branching) size Hc2 Hbn ltac:(lia) Hcap Hpos) as (em & E & Hem).
+  destruct (trie_agree chunk (N.to_nat branching) size proc Hc2 Hbn ltac:(lia) Hcap Hpos) as (em & E & Hem).
   exists em. split; [exact E|].
   eapply Forall_impl; [|exact Hem].
   intros [sp k] (H1 & H2 & H3). cbn [fst snd] in *. rewrite N2Nat.id in H3.
